@@ -365,17 +365,17 @@ def check_triple(ctx, cfg, si, A, B, C, t):
     t.outcome((what, sides, bool(okp and okv)))
 
 
-def check_repeat(ctx, cfg, si, t, frames=FRAMES):
+def check_repeat(ctx, cfg, si, t, frames=FRAMES, a_list=None):
     """Every first and second leg executed during the triples is executed once more: bit-identical results are required
     (the conversions are pure functions of state, date and frame definitions), and the objects the orbit-attached frames
     and stations were created from must still hold their original numbers."""
-    case = dict(kind="repeat", config=cfg, date=list(ctx["dt"]), state=si)
+    case = dict(kind="repeat", config=cfg, date=list(ctx["dt"]), state=si, a_list=list(a_list or frames))
     memo = ctx["memo"]
     base = ctx["states"][si]["base"]
     bad1 = bad2 = None
     n = 0
     try:
-        for A in frames:
+        for A in a_list or frames:
             sv = make_sv(ctx, si)
             xa = sv if A == base else convert(sv, A)
             old = memo.get(("A", si, A))
@@ -415,9 +415,11 @@ def check_refs(ctx, case, t):
             ctx["refs"][name] = (obj, now.copy())  # report each corruption once
 
 
-def run_triples(ctx, cfg, si, t, frames=FRAMES):
+def run_triples(ctx, cfg, si, t, frames=FRAMES, a_list=None):
+    """All ordered triples (A, B, C) with A in a_list (default: every frame), then the repeatability pass."""
     n = 0
-    for A in frames:
+    a_list = list(a_list or frames)
+    for A in a_list:
         for B in frames:
             if B == A:
                 continue
@@ -428,8 +430,29 @@ def run_triples(ctx, cfg, si, t, frames=FRAMES):
                 n += 1
             t.ev((cfg["eop"], ctx["dt"], si, A, B), n=len(frames) - 1)
     t.states_add(n)
-    t.trans(n + len(frames) * (len(frames) - 1) + len(frames))
-    check_repeat(ctx, cfg, si, t, frames)
+    t.trans(n + len(a_list) * len(frames))
+    check_repeat(ctx, cfg, si, t, frames, a_list)
+    ctx["memo"].clear()
+
+
+def run_pairs(ctx, cfg, si, t, frames=FRAMES):
+    """Deviation-bounded variant (quick tier, secondary states): every ordered pair (A, B) as round trip A->B->A and
+    as second and third frame of the triple (base, A, B)."""
+    base = ctx["states"][si]["base"]
+    n = 0
+    for A in frames:
+        for B in frames:
+            if B == A:
+                continue
+            check_triple(ctx, cfg, si, A, B, A, t)
+            n += 1
+            if A != base:
+                check_triple(ctx, cfg, si, base, A, B, t)
+                n += 1
+            t.ev((cfg["eop"], ctx["dt"], si, A, B), n=2)
+    t.states_add(n)
+    t.trans(n + len(frames) * len(frames))
+    check_refs(ctx, dict(kind="pairs", config=cfg, date=list(ctx["dt"]), state=si), t)
     ctx["memo"].clear()
 
 
@@ -818,7 +841,9 @@ def check_case(case, t):
     elif k == "edge":
         check_edges(ctx, cfg, t)
     elif k == "repeat":
-        run_triples(ctx, cfg, case["state"], t)
+        run_triples(ctx, cfg, case["state"], t, FRAMES, case.get("a_list"))
+    elif k == "pairs":
+        run_pairs(ctx, cfg, case["state"], t)
     else:
         raise ValueError(k)
     ctx["memo"].clear()
@@ -842,7 +867,6 @@ def run_unit(p, t):
         return
     ctx = get_ctx(p["date"])
     ctx["memo"].clear()
-    si = p["state"]
     before = _G["warnings"].n
     if p.get("per_date"):
         check_edges(ctx, cfg, t)
@@ -851,7 +875,9 @@ def run_unit(p, t):
                 if A != B:
                     check_matrix(ctx, cfg, A, B, t)
         ctx["memo"].clear()
-    if ctx["states"][si]["fd"]:
+    for si in p.get("fd_states", []):
+        if not ctx["states"][si]["fd"]:
+            continue
         for B in FRAMES:
             if klass(B) == "body":
                 t.exclude("finite-difference kinematics in Moon/Sun-centred frames (not in the quantifier's frame list)")
@@ -863,9 +889,12 @@ def run_unit(p, t):
                 t.exclude("finite-difference kinematics in QSW/TNW orbit-attached frames (frozen-axes reading)")
                 continue
             check_fd(ctx, cfg, si, B, t)
-    run_triples(ctx, cfg, si, t)
+    for si in p.get("pair_states", []):
+        run_pairs(ctx, cfg, si, t)
+    if p.get("a_list") is not None:
+        run_triples(ctx, cfg, p["state"], t, FRAMES, p["a_list"])
     if len(t.samples) < 2:
-        t.sample(dict(config=cfg, date=list(ctx["dt"]), state=ctx["states"][si]["name"], frames=FRAMES,
+        t.sample(dict(config=cfg, date=list(ctx["dt"]), state=ctx["states"][p["state"]]["name"], frames=FRAMES, a_list=p.get("a_list"),
                       eop=dict(ut1_utc=ctx["ref"].eop.ut1_utc, x=ctx["ref"].eop.x, lod=ctx["ref"].eop.lod, tai_utc=ctx["ref"].eop.tai_utc)))
     if cfg["eop"] == "warning":
         t.outcome(("warnings-logged", _G["warnings"].n > before))
@@ -879,11 +908,17 @@ def units(tier, seed):
     for kind in kinds:
         cfg = {"eop": kind}
         idx = QUICK_DATES[kind] if tier == "quick" else range(len(DATES))
-        # quick: GEO and ground-point states with the real tables only (identities are linear in the state)
-        nstates = (3 if kind == "real" else 1) if tier == "quick" else 4
         for i in idx:
-            for si in range(nstates):
-                u.append((cfg, dict(part="main", config=cfg, date=list(DATES[i]), state=si, per_date=(si == 0))))
+            d = list(DATES[i])
+            if tier == "quick":
+                # LEO state: all triples, split by first frame into two units; GEO and ground point: finite differences
+                # and all ordered pairs (deviation bound: identities are linear in the state)
+                cut = 8
+                u.append((cfg, dict(part="main", config=cfg, date=d, state=0, per_date=True, fd_states=[0, 1, 2], pair_states=[1, 2], a_list=FRAMES[:cut])))
+                u.append((cfg, dict(part="main", config=cfg, date=d, state=0, a_list=FRAMES[cut:])))
+            else:
+                for si in range(4):
+                    u.append((cfg, dict(part="main", config=cfg, date=d, state=si, per_date=(si == 0), fd_states=[si], a_list=list(FRAMES))))
         if tier == "quick":
             light = [list(DATES[i]) for i in QUICK_LIGHT[kind] if i not in QUICK_DATES[kind]]
             for k in range(0, len(light), 6):
